@@ -54,9 +54,15 @@ static void mat_layout(L rows, L cols, L& s0, L& s1) {
 static L opaddr(char t, L ld, L r, L c) { return t == 'N' ? r + c * ld : c + r * ld; }   // element (r,c) of op(X), column-major with leading dimension ld
 static L maxl(L a, L b) { return a > b ? a : b; }
 
-VF_HARNESS(gemm) {   // C = alpha*A*B + beta*C, A MxK, B KxN, C MxN
+// KNOWN FINDING C13-gemm-unit-extent (known_findings.json): when one of M, N, K is 1 gemm_n's special cases take leading dimensions from
+// sizes instead of strides.  The entries gemm_l<layout> exclude that region and must be proved; the twins gemm_unit_l<layout> are restricted
+// to the region, are expected to fail there, and are reported as KNOWN-FINDING only if the solver's counterexample reproduces on the real build.
+// LAYOUT = 3 bits (A, B, C): 1 = row-major, 0 = column-major; compile-time so that each of the eight layout branches of gemm_n is one query
+static void mat_layout_fixed(int rowmajor, L rows, L cols, L& s0, L& s1) { L pad = vf_range(0, PAD); if(rowmajor) { s1 = 1; s0 = cols + pad; } else { s0 = 1; s1 = rows + pad; } }
+template<bool UnitExtent, int LAYOUT> static void t_gemm() {   // C = alpha*A*B + beta*C, A MxK, B KxN, C MxN
   L M = vf_range(1, NB); L N = vf_range(1, NB); L K = vf_range(1, NB);
-  L as0, as1, bs0, bs1, cs0, cs1; mat_layout(M, K, as0, as1); mat_layout(K, N, bs0, bs1); mat_layout(M, N, cs0, cs1);
+  vf_assume(UnitExtent == (M == 1 || N == 1 || K == 1));
+  L as0, as1, bs0, bs1, cs0, cs1; mat_layout_fixed((LAYOUT >> 2) & 1, M, K, as0, as1); mat_layout_fixed((LAYOUT >> 1) & 1, K, N, bs0, bs1); mat_layout_fixed(LAYOUT & 1, M, N, cs0, cs1);
   L oa = vf_range(0, 3); L ob = vf_range(0, 3); L oc = vf_range(0, 3);
   auto A = mk2(g_ma + oa, as0, as1, M, K); auto B = mk2(g_mb + ob, bs0, bs1, K, N); auto C = mk2(g_mc + oc, cs0, cs1, M, N);
   bool rejected = false;
@@ -84,8 +90,9 @@ VF_HARNESS(gemm) {   // C = alpha*A*B + beta*C, A MxK, B KxN, C MxN
       && (r_b - g_mb) + opaddr(r_tb, r_ldb, l2, j2) == ob + l2 * bs0 + j2 * bs1;
     vf_assert(Tf || Df, "the recorded dgemm arguments denote C(i,j), A(i,l), B(l,j) for every index triple (direct or transposed form)");
   }
-  vf_reach("gemm");
 }
+#define G(L) VF_HARNESS(gemm_l##L) { t_gemm<false, L>(); vf_reach("gemm_l" #L); } VF_HARNESS(gemm_unit_l##L) { t_gemm<true, L>(); vf_reach("gemm_unit_l" #L); }
+G(0) G(1) G(2) G(3) G(4) G(5) G(6) G(7)
 
 VF_HARNESS(gemv) {   // y = alpha*A*x + beta*y, A MxN
   L M = vf_range(1, NB); L N = vf_range(1, NB);
